@@ -1,6 +1,7 @@
 // C05 harness: gstuff receivers on arbitrary byte streams (memory safety,
 // soundness, resynchronisation) against the Lean model IgrisModel/C04+C05.
 #include "gstuff/common.h"
+#include "gstuff/sess.h"
 
 // Soundness oracle: at every NEWPACKAGE the delivered bytes must be the
 // unescaped bytes since the last start marker, minus a trailing matching CRC-8.
@@ -40,6 +41,9 @@ static void run_op(const std::vector<std::string> &w, const std::string &, out &
 {
     const std::string &op = w[0];
     if (op == "reset") { o.result = "ok"; return; }
+    if (op == "seq") return run_seq(w, o);
+    if (op == "sizes") return run_sizes(o);
+    if (op == "longnoise") return run_longnoise(w, o);
     if (op == "ctx")
     {
         alphabet a = alpha_of(gstuff_context()), b = alpha_of(gstuff_context_v0());
